@@ -418,6 +418,7 @@ func master(args []string) {
 		os.Exit(2)
 	}
 	st := newStats()
+	maxHashes *= 32
 	viols := regress
 	var incs []string
 	var steps []int
@@ -560,6 +561,8 @@ func master(args []string) {
 		"verif_seed":              *seed,
 		"subseed_ordinals":        fmt.Sprintf("0..%d (sub-seed = hash(VERIF_SEED, property, ordinal))", trialsFor(p, *tier)-1),
 		"runs_per_hour":           int(float64(st.Evaluations) / wall * 3600),
+		"trials_per_hour":         int(float64(st.Trials) / wall * 3600),
+		"distinct_counts_are_lower_bounds": len(st.Nontrivial) >= maxHashes || len(st.Traces) >= maxHashes || st.Trials > 1500000,
 		"steps_total":             st.Steps,
 		"steps_p50":               percentile(steps, 0.5),
 		"steps_p99":               percentile(steps, 0.99),
